@@ -123,3 +123,53 @@ NOT_COVERED = [
     "the Rust HTML rewriter's contract (root attributes on top-level elements and only those) is trusted",
     "component_post_render's hand-over of the parent's attribute list to the child renderer (child_component_attrs table) and _gen_component_renderer.renderer passing its own render_id are not yet under contract",
 ]
+
+
+# ---------------------------------------------------------------------------------------------- footprint of the hand-over tables
+def check_handover_footprint():
+    """child_component_attrs (parent -> child attribute hand-over) and component_renderer_cache are module-level tables
+    shared by ALL renders in flight (nested / re-entrant renders interleave).  An entry must survive until the render id it
+    is filed under is processed, so the only admissible accesses are KEY-WISE: tbl[k] = v, tbl.pop(k[, d]), tbl.get(k),
+    k in tbl, tbl.update(<attrs returned for the component just rendered>).  Anything that touches entries of other
+    render ids (clear, reassignment, del of the table, iteration with removal, popitem, |=, copy-and-replace) breaks the
+    hand-over for a render that is still queued."""
+    import ast
+    from pyvc.repo import all_repo_modules, load_module
+    tables = {"child_component_attrs", "component_renderer_cache"}
+    keywise = {"pop", "get", "update", "setdefault", "__contains__"}
+    bad, seen = [], 0
+    for modname in all_repo_modules():
+        m = load_module(modname)
+        tree = m.tree
+        parents = {}
+        for n in ast.walk(tree):
+            for ch in ast.iter_child_nodes(n):
+                parents[ch] = n
+        for n in ast.walk(tree):
+            if isinstance(n, ast.Name) and n.id in tables:
+                seen += 1
+                par = parents.get(n)
+                where = f"{modname}:{getattr(n, 'lineno', '?')}"
+                if isinstance(par, ast.Attribute) and par.value is n:
+                    call = parents.get(par)
+                    if isinstance(call, ast.Call) and call.func is par and par.attr in keywise:
+                        continue
+                    bad.append(f"{where} {n.id}.{par.attr}")
+                elif isinstance(par, ast.Subscript) and par.value is n:
+                    if isinstance(parents.get(par), ast.Delete) or True:
+                        continue            # tbl[k], tbl[k] = v, del tbl[k]: key-wise
+                elif isinstance(par, ast.Compare) and n in par.comparators and all(isinstance(o, (ast.In, ast.NotIn)) for o in par.ops):
+                    continue
+                elif isinstance(par, ast.AnnAssign) and par.target is n and isinstance(parents.get(par), ast.Module):
+                    continue                # the module-level definition
+                elif isinstance(par, ast.Assign) and n in par.targets and isinstance(parents.get(par), ast.Module):
+                    continue
+                elif isinstance(par, (ast.ImportFrom, ast.alias)):
+                    continue
+                else:
+                    bad.append(f"{where} {n.id} used as {type(par).__name__}")
+    ok = not bad and seen >= 4
+    return ok, (f"{seen} references, all key-wise" if ok else f"non key-wise access to a hand-over table: {bad}" if bad else f"only {seen} references found: the tables moved")
+
+
+REG.syntactic_check("own#handover_tables_are_only_accessed_key_wise", P, check_handover_footprint)
